@@ -1,8 +1,9 @@
 #!/usr/bin/env python3
-"""keep_seed.py <PROP> <n> <worktree> "<one-line>" "<needs>" : copies a confirmed seeded change into /verif/seeded/<PROP>-<n>/"""
+"""keep_seed.py <PROP> <n> <worktree> "<one-line>" "<needs>" [<src-change-number>] : copies a confirmed seeded change into /verif/seeded/<PROP>-<n>/"""
 import sys, os, shutil, json, glob
 prop, n, wt, desc, needs = sys.argv[1:6]
-src = os.path.join(wt, "_out", "change" + n)
+srcn = sys.argv[6] if len(sys.argv) > 6 else n
+src = os.path.join(wt, "_out", "change" + srcn)
 dst = os.path.join("/verif/seeded", "%s-%s" % (prop, n))
 os.makedirs(dst, exist_ok=True)
 for f in glob.glob(os.path.join(src, "*")):
